@@ -93,6 +93,10 @@ def gen_world(seed, tier):
             so0["use_also_custom_timeout"] = True
     pool["so0"] = {"type": "dict", "v": so0}
     cons = gen.subpath_constraints(rng, gd, max_c=2)
+    r6 = random.Random(H(seed, "c18consorder"))
+    if cons and r6.random() < 0.3:
+        # the constructor accepts a constraint whose edges are not listed in path order; it is caller data like any other
+        cons = [list(reversed(c)) if len(c) > 1 else c for c in cons]
     pool["cons0"] = {"type": "constraints", "v": cons}
     pool["ign0"] = {"type": "edges", "v": [[e[0], e[1]] for e in gd["edges"] if rng.random() < 0.2][:1]}
     r5 = random.Random(H(seed, "c18r9"))
